@@ -62,3 +62,15 @@ def register(claim, na):
         "symbolic execution of circuit constructions on sympy symbols + z3 QF_NRA identity checking against algebraic oracles",
         "DESIGN.md §1 E1, §2 C08",
     )
+    claim(
+        "C18", "model_checking",
+        "Symbolic model checking of decompose_orquestra_circuit with the bundled U3 rule: plain U3(theta,phi,lambda) on every qubit of n<=3, "
+        "with one control on every ordered pair and two controls on 3 qubits, and mixed circuits under six rule lists; equality up to one "
+        "global phase is expressed without quantifier alternation as the vanishing of all 2x2 minors of (vec U_dec, vec U_orig) against "
+        "non-zero pivots and decided by z3 for all angles; kept operations/order, register width, empty rule list and rule chaining are concrete "
+        "comparisons; numeric U3 parameters at special angles (value-specific branches) are partly ground instances.",
+        "Trusted: sympy, translator (Fourier cross-check + replay), z3; obligations on which z3 and cvc5 give up are decided by the exact Fourier "
+        "certificate and counted apart. Known finding F9 (controlled-U3 relative phase).",
+        "symbolic execution of the decomposition on sympy symbols + z3 QF_NRA on rank-one (proportionality) minors",
+        "DESIGN.md §1 E1, §2 C18",
+    )
